@@ -476,6 +476,39 @@ def run(case):
             fails.append(("[quantity2 grids of different lengths] " if unequal_q2 else "[sky2mesh grids of different lengths] " if unequal_mesh else "") +
                          f"interpolate({grids}) raised {type(e).__name__}: {str(e)[:120]}")
     obs["interp"] = it_obs
+    # (4c) an integer on one table of a multi-table Quantity coordinate: what remains is the coordinate of the other
+    #      table alone - in that table's own unit, with its own name and physical type
+    if len(case["members"]) == 1 and kinds == ["quantity2"] and not fails:
+        m0 = case["members"][0]
+        full = build_member(m0, 0)
+        for keep in (0, 1):
+            nk, nd_ = len(m0["tables"][keep]), len(m0["tables"][1 - keep])
+            if nk < 2:
+                continue
+            lo = rng.randrange(0, nk - 1)
+            item = [None, None]
+            item[keep] = slice(lo, None)
+            item[1 - keep] = rng.randrange(-nd_, nd_)
+            try:
+                subc = full[tuple(item)]
+                sw_ = subc.wcs
+                tab_q = full.table[keep]                         # the kept table as it was given (own unit)
+                want_unit = tab_q.unit.to_string()
+                if [u.Unit(x).to_string() for x in sw_.world_axis_units] != [want_unit]:
+                    fails.append(f"coord[{item}]: declares units {list(sw_.world_axis_units)}, the remaining table is in {want_unit}")
+                elif list(sw_.world_axis_names) != [["qa0", "qb0"][keep]] or [str(t) for t in sw_.world_axis_physical_types] != [["custom:qa0", "custom:qb0"][keep]]:
+                    fails.append(f"coord[{item}]: declares {list(sw_.world_axis_names)} / {list(sw_.world_axis_physical_types)}")
+                else:
+                    for x in range(nk - lo):
+                        got = p2w(sw_, [float(x)])
+                        if not same(got, [float(tab_q.value[lo + x])]):
+                            fails.append(f"coord[{item}] at pixel {x} gives {got} {want_unit}, the table entry is {tab_q[lo + x]}")
+                            break
+                tags.append("int-on-one-table")
+            except Exception as e:
+                fails.append(f"coord[{item}] raised {type(e).__name__}: {str(e)[:120]}")
+            if fails:
+                break
     # (6) ExtraCoords.resample on a cube
     one_d = [m for m in case["members"] if m["kind"] in ("quantity", "time", "sky1")]
     if one_d and not fails:
